@@ -279,6 +279,13 @@ func (in *interp) signal(tag int) {
 
 func (in *interp) logf(s string) { in.log = append(in.log, s) }
 
+// BoomText is the message of the error the host function boom(id) panics with
+// (the harness owns that function, so the text identifies the failure).
+func BoomText(id int) string { return "boom " + strconv.Itoa(id) }
+
+// CloseOfClosedText is the Go runtime's message for closing a closed channel.
+const CloseOfClosedText = "close of closed channel"
+
 func (in *interp) throwAny() ctl {
 	in.err = &ErrV{Any: true}
 	return ctlThrow
@@ -456,6 +463,19 @@ func (in *interp) exec(s Stmt, sc *Scope, fr *frame) ctl {
 
 	case Defer:
 		return in.execDefer(s, sc, fr)
+
+	case Close:
+		in.signal(s.Tag)
+		x, c := in.eval(s.X, sc, fr)
+		if c != ctlNone {
+			return c
+		}
+		if _, ok := x.(*ChanV); !ok {
+			in.undetermined("close of a non-channel")
+		}
+		// the channel is closed already: the Go runtime refuses, a runtime error
+		in.err = &ErrV{Alts: []string{CloseOfClosedText}}
+		return ctlThrow
 
 	case Block:
 		return in.execList(s.Body, newScope(sc), fr)
@@ -717,7 +737,8 @@ func (in *interp) execDefer(s Defer, sc *Scope, fr *frame) ctl {
 		id := call.ID
 		fr.defers = append(fr.defers, func() ctl {
 			in.logf("boom" + strconv.Itoa(id))
-			return in.throwAny()
+			in.err = &ErrV{Alts: []string{BoomText(id)}}
+			return ctlThrow
 		})
 	default:
 		panic("ir: Defer.Call must be Call, Probe, Show or Boom")
@@ -955,7 +976,8 @@ func (in *interp) eval(e Expr, sc *Scope, fr *frame) (Value, ctl) {
 		return nil, ctlNone
 	case Boom:
 		in.logf("boom" + strconv.Itoa(e.ID))
-		return nil, in.throwAny()
+		in.err = &ErrV{Alts: []string{BoomText(e.ID)}}
+		return nil, ctlThrow
 	case HostNilFunc:
 		return NilFuncV{}, ctlNone
 	case ChanOf:
